@@ -10,6 +10,7 @@ Definition unprotect13 (key iv seq rec : list N) : option (N * list N) :=
   | Dec13Err _ => None
   end.
 Definition observe13_sm4 := observe13 unprotect13.
+Definition observe13_msgs_sm4 := observe13_msgs unprotect13.
 
 (* SM4_KEY.rk as 32 big-endian words, for comparison with the installed keys *)
 Definition sm4_rk_bytes (key : list N) : list N := flat_map be32 (sm4_key_schedule key).
